@@ -34,7 +34,8 @@ bool nameDiv = false; bool done = false; bool chkdiv = true; bool nomerge = fals
 FILE *out = nullptr; std::string outdir;
 std::map<std::string, long> notes; std::vector<std::string> events;
 std::map<std::string, std::pair<long,long>> acount;   // assertion id -> (ok, notok)
-std::unordered_map<unsigned, bool> decided;           // cmp ast id -> value
+std::unordered_map<unsigned, bool> decided;           // cmp ast id -> value (keys are kept alive in KEEP: z3 reuses ids of freed asts)
+std::vector<z3::expr> KEEP;
 z3::model *curModel = nullptr;
 std::set<int> reached, executed; int curBlock = -1;
 double t0;
@@ -122,7 +123,7 @@ bool decide(const z3::expr &c0) {
     else infeasiblePrefix();
     if (mo) delete mo;
   }
-  PC.push_back(r ? c : !c); decided[c.id()] = r; z3::expr ncs = (!c).simplify(); decided[ncs.id()] = !r;
+  PC.push_back(r ? c : !c); decided[c.id()] = r; KEEP.push_back(c); z3::expr ncs = (!c).simplify(); decided[ncs.id()] = !r; KEEP.push_back(ncs);
   return r;
 }
 z3::expr cmpTerm(int pred, const z3::expr &x, const z3::expr &y) {
@@ -138,9 +139,14 @@ bool cmpConcrete(int pred, double a, double b) {
 void touch() { if (curBlock >= 0) reached.insert(curBlock); }
 
 std::string ratStr(const z3::expr &v) { try { return v.get_decimal_string(20); } catch (...) { return "?"; } }
+static double bigToDouble(const std::string &s0, int *e10) {   /* decimal integer string -> mantissa in [1,10^17) and decimal exponent */
+  std::string s = s0; bool neg = false; if (!s.empty() && s[0] == '-') { neg = true; s = s.substr(1); } size_t p = s.find_first_not_of('0'); if (p == std::string::npos) { *e10 = 0; return 0; } s = s.substr(p);
+  std::string head = s.substr(0, 18); *e10 = (int)s.size() - (int)head.size(); double m = strtod(head.c_str(), nullptr); return neg ? -m : m; }
 double ratDouble(const z3::expr &v) {
-  try { if (v.is_numeral()) { std::string s = v.get_decimal_string(30); if (!s.empty() && s.back() == '?') s.pop_back(); return strtod(s.c_str(), nullptr); }
-        if (v.is_algebraic()) { std::string s = v.get_decimal_string(30); if (!s.empty() && s.back() == '?') s.pop_back(); return strtod(s.c_str(), nullptr); } } catch (...) {}
+  try {
+    if (v.is_numeral()) { int en, ed; double mn = bigToDouble(v.numerator().get_decimal_string(0), &en), md = bigToDouble(v.denominator().get_decimal_string(0), &ed); if (mn == 0) return 0;
+      long double q = (long double)mn / (long double)md; int e = en - ed; long double r = q * powl(10.0L, (long double)e); return (double)r; }
+    if (v.is_algebraic()) { std::string s = v.get_decimal_string(30); if (!s.empty() && s.back() == '?') s.pop_back(); return strtod(s.c_str(), nullptr); } } catch (...) {}
   return NAN;
 }
 // try to pin inputs to short dyadic values while keeping (pc && extra) satisfiable, so that the model survives rounding to doubles
@@ -164,11 +170,18 @@ std::string modelJson(z3::model *m) {
 bool validate(z3::model *m, const z3::expr &negA) {
   try { for (auto &p : PC) if (!m->eval(p, true).is_true()) return false; return m->eval(negA, true).is_true(); } catch (...) { return false; }
 }
+/* prefer a counterexample of moderate magnitude (replays in floating point without overflow); takes ownership of m */
+z3::model *niceModel(const z3::expr &extra, z3::model *m) {
+  for (double B : {8.0, 1024.0, 1e9}) { z3::expr_vector v(ctx); v.push_back(extra); for (auto &in : inputs) { v.push_back(in.e <= constTerm(B)); v.push_back(in.e >= constTerm(-B)); }
+    z3::expr all = z3::mk_and(v); z3::model *m2 = nullptr; int r2 = check(&all, &m2, 3000); if (r2 == 1 && m2 && validate(m2, extra)) { if (m) delete m; return m2; } if (m2) delete m2; }
+  return m;
+}
 void recordAssert(const char *id, int res, const z3::expr *negA, z3::model *m) {   // res 0 ok 1 viol 2 unknown
   nassert++; auto &ac = acount[id];
   if (res == 0) { nok++; ac.first++; return; }
   ac.second++;
-  if (res == 1) { nviol++; std::string mj = "{}"; if (!m && !concreteMode && !negA && ensureModel()) m = curModel; if (m) { z3::model *m2 = negA ? dyadicize(*negA, m) : m; mj = modelJson(m2); if (m2 != m) delete m2; }
+  if (res == 1) { nviol++; std::string mj = "{}"; z3::model *own = nullptr; if (!m && !concreteMode && !negA) { z3::expr tt = ctx.bool_val(true); own = niceModel(tt, nullptr); if (own) m = own; else if (ensureModel()) m = curModel; } if (m) { z3::model *m2 = negA ? dyadicize(*negA, m) : m; mj = modelJson(m2); if (m2 != m) delete m2; } if (own) delete own;
+    if (getenv("SLUSYM_DUMP_VIOL") && negA) { z3::solver s(ctx); for (auto &q : PC) s.add(q); s.add(*negA); FILE *f = fopen((std::string(getenv("SLUSYM_DUMP_VIOL")) + "/viol_" + std::to_string(nassert) + ".smt2").c_str(), "w"); if (f) { fprintf(f, "%s\n(get-model)\n", s.to_smt2().c_str()); fclose(f); } }
     emit("{\"k\":\"V\",\"id\":\"" + jesc(id) + "\",\"path\":\"" + taken + "\",\"block\":" + std::to_string(curBlock) + ",\"model\":" + mj + "}"); }
   else { nunk++; std::string qf;
     if (!outdir.empty() && negA) { z3::solver s(ctx); for (auto &q : PC) s.add(q); s.add(*negA); char nm[512]; snprintf(nm, sizeof nm, "%s/q_%d_%ld.smt2", outdir.c_str(), (int)getpid(), nassert);
@@ -182,11 +195,7 @@ void obligation(const z3::expr &a0, const char *id) {
   if (a.is_false()) { ensureModel(); recordAssert(id, 1, &na, curModel); return; }
   z3::model *m = nullptr; int r = check(&na, &m);
   if (r == 0) recordAssert(id, 0, nullptr, nullptr);
-  else if (r == 1 && m && validate(m, na)) {
-    /* prefer a counterexample of moderate magnitude (replays in floating point without overflow) */
-    for (double B : {64.0, 1e6}) { z3::expr_vector v(ctx); v.push_back(na); for (auto &in : inputs) { v.push_back(in.e <= constTerm(B)); v.push_back(in.e >= constTerm(-B)); }
-      z3::expr all = z3::mk_and(v); z3::model *m2 = nullptr; int r2 = check(&all, &m2, 3000); if (r2 == 1 && m2 && validate(m2, na)) { delete m; m = m2; break; } if (m2) delete m2; }
-    recordAssert(id, 1, &na, m); }
+  else if (r == 1 && m && validate(m, na)) { m = niceModel(na, m); recordAssert(id, 1, &na, m); }
   else recordAssert(id, 2, &na, nullptr);
   if (m) delete m;
 }
@@ -250,7 +259,7 @@ static std::map<std::pair<unsigned, unsigned>, unsigned> divCache;
 static z3::expr binTerm(int op, const z3::expr &x, const z3::expr &y) { switch (op) { case 0: return x + y; case 1: return x - y; case 2: return x * y; default:
     if (nameDiv && !y.is_numeral()) {   /* purify: q with q*y == x (y != 0 is checked separately by divCheck; a possibly-zero divisor is an event) */
       auto key = std::make_pair(x.id(), y.id()); auto it = divCache.find(key); if (it != divCache.end()) return T[it->second];
-      z3::expr q = ctx.real_const(("div!" + std::to_string(divCache.size())).c_str()); PC.push_back(q * y == x); PC.push_back(y != 0); setModel(nullptr); T.push_back(q); divCache[key] = T.size() - 1; return q; }
+      z3::expr q = ctx.real_const(("div!" + std::to_string(divCache.size())).c_str()); PC.push_back(z3::implies(y != 0, q * y == x)); setModel(nullptr); T.push_back(q); divCache[key] = T.size() - 1; return q; }
     return x / y; } }
 static void divCheck(const z3::expr &y) {
   if (!chkdiv) return; z3::expr z = (y == 0); z3::expr zs = z.simplify(); if (zs.is_false()) return;
@@ -297,7 +306,11 @@ static z3::expr symUnary(int op, const z3::expr &x) {
       for (auto &pr : LOGS) { PC.push_back(z3::implies(e < pr.first, x < pr.second)); PC.push_back(z3::implies(e == pr.first, x == pr.second)); PC.push_back(z3::implies(e > pr.first, x > pr.second)); }
       LOGS.push_back({e, x}); setModel(nullptr); return e; }
     default: { z3::expr s = x.simplify(); if (s.is_numeral()) { double v = ratDouble(s); return constTerm(op == 4 ? floor(v) : ceil(v)); }
-      slusym_outside("floor/ceil of a symbolic value"); return x; }
+      /* lazy concretisation: enumerate the (few) integer values the term can take on this path, forking on each */
+      for (int k = 0; k < 6; k++) { if (!ensureModel()) break; z3::expr mv = curModel->eval(x, true); if (!mv.is_numeral() && !mv.is_algebraic()) break; double v = ratDouble(mv); double f = op == 4 ? floor(v) : ceil(v);
+        z3::expr lo = constTerm(op == 4 ? f : f - 1), hi = constTerm(op == 4 ? f + 1 : f); z3::expr c = op == 4 ? (x >= lo && x < hi) : (x > lo && x <= hi);
+        if (decide(c)) return constTerm(f); }
+      slusym_outside("floor/ceil of a symbolic value with more than 6 alternatives"); return x; }
   }
 }
 double __sym_un_d(int op, double a) {
@@ -377,7 +390,7 @@ double slusym_real(const char *name) { return mkInput(name, DBL_MAX, 4.940656458
 double slusym_real_f(const char *name) { return mkInput(name, FLT_MAX, 1.401298464324817e-45); }
 void slusym_assume_cmp(int pred, double a, double b) {
   if (!isboxd(a) && !isboxd(b)) { if (!cmpConcrete(pred, a, b)) { emit("{\"k\":\"I\",\"path\":\"" + taken + "\",\"why\":\"assume false\"}"); done = true; exit(0); } return; }
-  z3::expr c = cmpTerm(pred, termd(a), termd(b)); PC.push_back(c); z3::expr cs = c.simplify(); decided[cs.id()] = true; setModel(nullptr);
+  z3::expr c = cmpTerm(pred, termd(a), termd(b)); PC.push_back(c); z3::expr cs = c.simplify(); decided[cs.id()] = true; KEEP.push_back(cs); setModel(nullptr);
 }
 void slusym_assert_cmp(int pred, double a, double b, double scale, const char *id) {
   if (!isboxd(a) && !isboxd(b)) { bool ok = cmpConcrete(pred, a, b);
